@@ -1618,14 +1618,18 @@ func (self *PriorityMutex) Unlock() {
 }
 
 func (self *PriorityMutex) HighSetPriority() bool {
+	if atomic.LoadUint32(&self.highPriority) != 0 {
+		return false
+	}
+	self.highPriorityMutex.Lock()
 	if atomic.CompareAndSwapUint32(&self.highPriority, 0, 1) {
-		self.highPriorityMutex.Lock()
 		self.setHighPriorityCount++
 		if atomic.CompareAndSwapUint32(&self.highPriorityAcquireCount, 0, 0) {
 			self.HighUnSetPriority()
 		}
 		return true
 	}
+	self.highPriorityMutex.Unlock()
 	return false
 }
 
